@@ -2239,6 +2239,12 @@ class Interp:
             if exc.cls == '<any>':
                 if c.name in ('Exception', 'BaseException'):
                     return True
+                # a failure of unknown kind may be of this kind: decide it on the path (and remember it, so that later handlers agree).
+                # Only for failures the contract marks as refinable - elsewhere '<any>' stands for "any failure other than the kinds
+                # the contract raises by name"
+                if getattr(exc, 'refinable', False) and self.e.branch(self.e.bool(f'the_failure_is_a_{c.name}'), f'unknown failure is a {c.name}'):
+                    exc.cls = c.name
+                    return True
                 continue
             if self.repo.is_subclass(exc.cls, c.name):
                 return True
